@@ -84,6 +84,37 @@ pub fn genlib(args: &[String]) -> i32 {
     if let Some(pv) = &pv {
         c.version(pv.clone());
     }
+    // entries "lib5a" / "lib5b" (library only): the endpoint version is left unset so that it
+    // defaults to the crate version; "b" switches the crate on twice (another name and version
+    // first). Both describe the same final configuration.
+    if let Ok(which) = std::env::var("VERIF_VERSION_UNSET") {
+        let mut d = conjure_codegen::Config::new();
+        d.exhaustive(b(&args[2])).serialize_empty_collections(b(&args[3]));
+        d.strip_prefix(opt(&args[4]));
+        if let (Some(name), Some(pv)) = (&name, &pv) {
+            if which == "b" {
+                d.build_crate("overwritten-name", "0.0.1");
+            }
+            d.build_crate(name, cv.as_deref().unwrap_or(pv));
+        }
+        c = d;
+    }
+    // entry "lib4": the same final configuration reached through a longer sequence of setter
+    // calls (values set, then overwritten; the crate switched on twice; options in another order)
+    if std::env::var("VERIF_SETTER_SEQUENCE").is_ok() {
+        let mut d = conjure_codegen::Config::new();
+        d.version("0.0.0-overwritten".to_string());
+        d.strip_prefix("zzz.overwritten".to_string());
+        if let (Some(name), Some(pv)) = (&name, &pv) {
+            d.build_crate("overwritten-name", "0.0.1");
+            d.build_crate(name, cv.as_deref().unwrap_or(pv));
+        }
+        d.serialize_empty_collections(!b(&args[3])).exhaustive(!b(&args[2]));
+        d.serialize_empty_collections(b(&args[3])).exhaustive(b(&args[2]));
+        d.strip_prefix(opt(&args[4]));
+        d.version(pv.clone());
+        c = d;
+    }
     // probe: iteration order of a HashMap with the IR's type names under this hash seed
     if let Ok(order_file) = std::env::var("VERIF_ORDER_PROBE") {
         if let Ok(text) = std::fs::read_to_string(ir) {
@@ -225,6 +256,12 @@ fn generate(entry: &str, ir: &Path, cfg: &Cfg, seed: u64, work: &Path, tag: &str
     } else {
         Command::new(&exe)
     };
+    if entry == "lib5a" || entry == "lib5b" {
+        cmd.env("VERIF_VERSION_UNSET", &entry[4..]);
+    }
+    if entry == "lib4" {
+        cmd.env("VERIF_SETTER_SEQUENCE", "1");
+    }
     if entry == "lib3" {
         cmd.env("VERIF_STALE_OUTPUT", "1");
     }
@@ -394,7 +431,8 @@ pub fn run(args: &Args) -> Report {
             programs.push((format!("conjure-codegen/{}", f), ex));
         }
     }
-    let strips: Vec<Option<&'static str>> = vec![None, Some("com"), Some("com.palantir.conjure")];
+    // incl. a prefix with a trailing separator (whatever it means, both entry points agree on it)
+    let strips: Vec<Option<&'static str>> = vec![None, Some("com"), Some("com.palantir.conjure"), Some("com.palantir.")];
     let mut cfgs = vec![];
     for exhaustive in [false, true] {
         for serialize_empty in [false, true] {
@@ -407,7 +445,8 @@ pub fn run(args: &Args) -> Report {
     }
     if !thorough {
         // quick: every flag value appears, not the full product
-        cfgs = vec![cfgs[0].clone(), cfgs[cfgs.len() - 1].clone(), cfgs[7].clone(), cfgs[22].clone()];
+        let dotted = cfgs.iter().find(|c| c.strip == Some("com.palantir.") && c.krate.is_none() && !c.exhaustive && c.serialize_empty).cloned().unwrap();
+        cfgs = vec![cfgs[0].clone(), cfgs[cfgs.len() - 1].clone(), cfgs[7].clone(), cfgs[22].clone(), dotted];
     }
     let seeds: Vec<u64> = (0..args.tier.pick(4u64, 32u64)).collect();
     let jobs: Vec<(usize, usize)> = (0..programs.len()).flat_map(|p| (0..cfgs.len()).map(move |c| (p, c))).collect();
@@ -419,9 +458,16 @@ pub fn run(args: &Args) -> Report {
             let cfg = &cfgs[*ci];
             let tag = format!("p{}c{}", pi, ci);
             let mut reference: Option<(String, BTreeMap<String, Vec<u8>>)> = None;
+            // the version-unset configuration has no CLI spelling: its two entries are compared
+            // with each other
+            let mut reference5: Option<(String, BTreeMap<String, Vec<u8>>)> = None;
             let mut probes = BTreeSet::new();
             for (si, seed) in seeds.iter().enumerate() {
-                for entry in ["lib", "cli", "lib2", "lib3"] {
+                for entry in ["lib", "cli", "lib2", "lib3", "lib4", "lib5a", "lib5b"] {
+                    if entry.starts_with("lib5") && (cfg.krate.is_none() || si > 1) {
+                        continue;
+                    }
+                    let reference = if entry.starts_with("lib5") { &mut reference5 } else { &mut reference };
                     r.states += 1;
                     r.evaluations += 1;
                     r.transitions += 1;
@@ -437,7 +483,7 @@ pub fn run(args: &Args) -> Report {
                                 r.violation(format!("C20|{}|writes-outside-output-directory|{}", pname, entry), format!("{} [{}] via {} (generation failed: {}): created/wrote {:?} outside the requested output directory", pname, cfg.text(), entry, run.stderr.chars().take(120).collect::<String>(), &outside[..outside.len().min(3)]), case.clone());
                             }
                         }
-                        if reference.as_ref().map(|x| !x.1.is_empty()).unwrap_or(false) {
+                        if (*reference).as_ref().map(|x| !x.1.is_empty()).unwrap_or(false) {
                             r.violation(format!("C20|{}|fails-only-sometimes", pname), format!("{} [{}] failed under {} seed {} but succeeded elsewhere: {}", pname, cfg.text(), entry, seed, run.stderr), case);
                         }
                         continue;
@@ -452,12 +498,12 @@ pub fn run(args: &Args) -> Report {
                             r.outcome("file-activity-only-beneath-output-dir");
                         }
                     }
-                    match &reference {
-                        None => reference = Some((format!("{} seed {}", entry, seed), run.tree)),
+                    match &*reference {
+                        None => *reference = Some((format!("{} seed {}", entry, seed), run.tree)),
                         Some((what, t)) => match diff(t, &run.tree) {
                             None => r.outcome("identical-tree"),
                             Some(d) => {
-                                let kind = if what.starts_with(&format!("{} ", entry)) { "differs-across-hash-seeds" } else if entry == "lib2" { "library-after-another-generation-in-the-same-process" } else if entry == "lib3" { "generation-over-an-older-tree" } else { "library-vs-cli" };
+                                let kind = if what.starts_with(&format!("{} ", entry)) { "differs-across-hash-seeds" } else if entry == "lib2" { "library-after-another-generation-in-the-same-process" } else if entry == "lib3" { "generation-over-an-older-tree" } else if entry == "lib4" || entry == "lib5b" { "same-configuration-through-another-setter-sequence" } else { "library-vs-cli" };
                                 r.violation(format!("C20|{}|{}|{}", pname, kind, cfg.text()), format!("{} [{}]: output of {} seed {} differs from {}: {}", pname, cfg.text(), entry, seed, what, d), case);
                             }
                         },
